@@ -259,7 +259,21 @@ fn main() {
     let threads = std::env::var("VERIF_THREADS").ok().and_then(|s| s.parse().ok()).unwrap_or(16usize);
     rayon::ThreadPoolBuilder::new().num_threads(threads).stack_size(16 << 20).build_global().ok();
     let mk = |name: &'static str| Run::new(name, tier, seed);
-    let code = dispatch!(id.as_str(), mk, replay,
+    // a panic of the CHECK itself (not of the engine: those are caught per call) must not look like anything else
+    let code = match std::panic::catch_unwind(std::panic::AssertUnwindSafe(|| run_check(&id, &mk, replay.clone()))) {
+        Ok(c) => c,
+        Err(e) => {
+            let msg = e.downcast_ref::<&str>().map(|s| s.to_string()).or_else(|| e.downcast_ref::<String>().cloned()).unwrap_or_default();
+            println!("INCONCLUSIVE the check itself panicked ({msg}); nothing it observed is reported");
+            driver::cleanup_scratch();
+            2
+        }
+    };
+    std::process::exit(code);
+}
+
+fn run_check(id: &str, mk: &dyn Fn(&'static str) -> Run, replay: Option<Value>) -> i32 {
+    let code = dispatch!(id, mk, replay,
         "C01" => c01,
         "C02" => c02,
         "C03" => c03,
@@ -281,5 +295,5 @@ fn main() {
         "C19" => c19,
     );
     driver::cleanup_scratch();
-    std::process::exit(code);
+    code
 }
